@@ -226,7 +226,8 @@ class Canary:
 
 
 def _model_self():
-    me = Obj("Model", _eventList=[], _transitionList=[], _birthDeathList=[], _odeList=[], _explicitOde=False)
+    me = Obj("Model", _eventList=[], _transitionList=[], _birthDeathList=[], _odeList=[], _explicitOde=False,
+             _stateList=[Obj("ODEVariable", ID=n, name=n) for n in ("S", "I", "R")], _paramList=[Obj("ODEVariable", ID=n, name=n) for n in ("a", "b")])
     me.attrs["_hasNewTransition"] = Obj("Canary", tripped=0)
     return me
 
@@ -344,6 +345,10 @@ def _check_accumulating(repo, res):
 def _class_eq(repo):
     """equality of two abstract Transition / Event objects as the class's own __eq__ defines it (identity when it defines none)"""
     def eq(x, y):
+        from .C09 import eq_hook as _var_eq
+        r = _var_eq(x, y)           # a declared state / parameter compares equal to its name
+        if r is not None:
+            return r
         if not (isinstance(x, Obj) and isinstance(y, Obj) and x.cls == y.cls and x.cls in ("Transition", "Event")):
             return None
         try:
